@@ -13,6 +13,8 @@ PROP = 'C09'
 
 
 def pat_text(p):
+    if p[0] == 'union':
+        return pat_text(p[1]) + '|' + pat_text(p[2])
     head, steps = p
     out = []
     if head == '/':
@@ -33,6 +35,8 @@ def pat_text(p):
 
 
 def pat_ast(p):
+    if p[0] == 'union':
+        return b('|', pat_ast(p[1]), pat_ast(p[2]))
     head, steps = p
     st = []
     for i, (join, af, test, preds) in enumerate(steps):
@@ -284,6 +288,17 @@ def insitu_patterns(tier):
     for fam, p in gen_patterns('quick', with_key=True):
         if fam in ('1step', 'head-only') or (fam == '2step' and p[1][1][3] in ([], [num(1)])):
             pats.append(('key-' + fam, p))
+    # unions: every ORDERED pair of alternatives of different target kinds (template rules are filed per alternative by the kind
+    # and name of its last step)
+    A = name('a')
+    alts = [(None, [('', 'c', A, [])]), (None, [('', 'c', WILD, [])]), (None, [('', 'c', name('a', 'p'), [])]), (None, [('', '@', name('x'), [])]),
+            (None, [('', '@', WILD, [])]), (None, [('', 'c', TEXTT, [])]), (None, [('', 'c', X.COMMENTT, [])]), (None, [('', 'c', X.PIT, [])]),
+            (None, [('', 'c', NODE, [])]), ('/', []), (('id', 'i1'), []), (None, [('', 'c', A, []), ('/', 'c', name('b'), [])]),
+            (None, [('', 'c', name('b'), [[num(1)]][0])]), ('//', [('', '@', name('x'), [])])]
+    for p1 in alts:
+        for p2 in alts:
+            if p1 is not p2:
+                pats.append(('union', ('union', p1, p2)))
     return pats
 
 
